@@ -656,6 +656,21 @@ theorem reduce_row_shows_own_group (env : Env) (r : Reduce) (vt : VirtualTerm) (
   rw [rowCells_group_cells, he]
   simp [groupParts]
 
+/-- SEVERAL FRAMES (`helpers.RunAggregationLoop` runs the render callback on every 100 ms tick and once at the end, all into
+the same table): for ANY sequence of frames – each with the sorted groups and data of its moment, groups appearing, rows
+moving – every callback returns, the table invariant holds, and the table finally shows the LAST frame: row `i + 1` has
+exactly the cells of group `i` of the last frame, with that group's own label (blank for the empty group value),
+whatever the earlier frames left in that row -/
+theorem reduce_frames_show_last (env : Env) (f0 f1 : Bytes) (frames : List (List (Bytes × List Bytes))) (last : List (Bytes × List Bytes))
+    (r : Reduce) (vt : VirtualTerm) (hinv : TableInv env r.table vt) :
+    ∃ r' vt', Reduce.renderAll env f0 f1 (r, vt) (frames ++ [last]) = .ok (r', vt') ∧ TableInv env r'.table vt' ∧
+      (∀ (i : Nat) (g : Bytes × List Bytes), last[i]? = some g → ((i : Int) + 1 < r.table.maxRows) →
+        ∃ row, r'.table.rows[i + 1]? = some row ∧ row = r.rowCells env g.1 g.2 ∧
+          row.take r.gnames.length = ((groupParts g.1).take r.gnames.length).map (wrap env cBrightWhite) ++
+            List.replicate (r.gnames.length - ((groupParts g.1).take r.gnames.length).length) []) := by
+  obtain ⟨r', vt', h1, h2, _, _, _, h6⟩ := reduce_renderAll env f0 f1 frames last r vt hinv
+  exact ⟨r', vt', h1, h2, fun i g hg hlt => ⟨_, h6 i g hg hlt, rfl, rowCells_group_cells env r g.1 g.2⟩⟩
+
 /-- why the row loop allocates: one iteration of the loop on a FRESH buffer (`make([]string, ColCount)`, all cells
 empty) writes exactly the cells the model hands to `WriteRow` – every key, every data list (shorter, longer) -/
 theorem reduce_fresh_buffer (env : Env) (r : Reduce) (key : Bytes) (data : List Bytes) :
@@ -1201,6 +1216,12 @@ example : exprFormat [Expr.Comp.match_ 0, Expr.Stage.lit (ascii "/"), Expr.Comp.
 /-- reduce row: one group column, a key with three parts, one data column (the state that panicked before 73473fc) -/
 example : Reduce.rowCells ⟨false, true⟩ { table := ⟨2, 3, 0, [0, 0], [[], [], []]⟩, gnames := [ascii "k"], dnames := [ascii "n"] }
     [97, 0, 98, 0, 99] [ascii "1"] = [ascii "a", ascii "1"] := by decide +kernel
+/-- two frames into one table: `alpha` alone, then the empty group value in front of it – the first data row of the second
+frame carries an empty label -/
+example : (Reduce.new 10 20 [ascii "grp"] [ascii "total"] >>= fun r => r.start ⟨false, true⟩ VirtualTerm.new >>= fun st =>
+    Reduce.renderAll ⟨false, true⟩ (ascii "F0") (ascii "F1") st
+      [[(ascii "alpha", [ascii "i1"])], [([], [ascii "i5"]), (ascii "alpha", [ascii "i1"])]] >>= fun st =>
+    pure (st.2.lines.take 3)).toOption = some [ascii "grp   total ", ascii "      i5    ", ascii "alpha i1    "] := by decide +kernel
 /-- the hypotheses of `datatable_numbers` / `spark_render_ok` hold for the writers the commands build -/
 example : ∃ d, DataTable.new 10 20 true true = .ok d ∧ d.table.maxRows = d.numRows + 2 ∧ 0 ≤ d.numCols ∧ 0 ≤ d.numRows :=
   ⟨_, rfl, by decide, by decide, by decide⟩
